@@ -15,6 +15,7 @@ STRINGS = ["x", "", "a b", "<&>\"'", "é ü", "tab\there", "line\nbreak", "\U00
 
 
 SAME_RESOURCE_MOVES = False  # set by checks whose domain excludes moves between resources
+MEMBER_AGAIN = 0.0           # probability of offering a current member again to a (non-unique) attribute-link list
 PREFER_INTERLEAVED = 0.0     # probability of picking an owner whose list members are interleaved with other child kinds
 
 
@@ -272,6 +273,13 @@ def gen_step(model, rels: list[Relation], rng: random.Random, weights: dict[str,
             if not dests:
                 continue
             d = rng.choice(dests)
+            if SAME_RESOURCE_MOVES:
+                ff = model._loader.find_fragment
+                try:
+                    if ff(a).parts[0] != ff(d.owner._element).parts[0]:
+                        continue
+                except ValueError:
+                    continue  # a stale relation: its owner was deleted by an earlier step (same rule as for plain moves)
             try:
                 dl = d.get()
             except Exception:
@@ -369,6 +377,8 @@ def gen_step(model, rels: list[Relation], rng: random.Random, weights: dict[str,
                 if not cands:
                     continue
                 x = rng.choice(cands)
+                if MEMBER_AGAIN and n and rel.kind == "AttrProxyAccessor" and op in ("insert", "append") and rng.random() < MEMBER_AGAIN:
+                    x = lst[rng.randrange(n)]   # a plain Python list holds the same object twice; so does an attribute-link list
             # sometimes operate through a list object fetched earlier (a second, outdated handle)
             hkey = (id(rel.owner._element), rel.attr)
             stale = _HANDLES.get(hkey)
